@@ -429,6 +429,7 @@ func spaces(tier string) []kit.Space {
 				return map[string]any{"index.html": dd[i].body(0), "..a/p.html": "{% macro P %}p{% end %}\n"}
 			},
 		},
+		formsSpace(), dirsSpace(), rootSpace(), oddSpace(),
 	}
 }
 
@@ -440,6 +441,7 @@ func main() {
 		Rule: "every assignment of references (4 kinds — extends, import, render, render with default — x 8 path strings) to the three files index.html, a/p.html, a/b/q.html with at most 1 (quick) / 2 (thorough) references in index.html and at most 1 in each of the others; every graph is built three times, through a recording fs.FS, a recording FormatFS and a recording fs.ReadFileFS; " +
 			"a case is non-trivial when index.html carries at least one reference. Indices enumerate distinct reference assignments (mixed radix)",
 		Assumptions: []string{
+			"forms, dirs, root and odd (see forms.go), identical in both tiers: forms = 14 reference forms x 20 path shapes x 3 depths of the referencing file x 3 file systems (recording scriggo.Files, the same as FormatFS, and a lenient one that serves the cleaned name of whatever it is asked); the valid shapes are those of the documented rule (a valid file system path, not '.', that may start with / or with ../ elements); no name with a '..', '.', or empty element, no empty or absolute name may reach the file system; invalid shapes must be build errors; dirs = 4 inner references x 3 spellings x 2 ways to reach the pages x both orders x 2 file systems, with decoy files where a wrong resolution would look; root = 11 shapes of the name passed to BuildTemplate x 4 bodies through the lenient file system; odd = Format failing for an existing file (wrapping fs.ErrNotExist or not) and a directory referred to as a file x 14 forms: the build must fail",
 			"model resolution: a path starting with / is taken from the root, any other is path.Join(dir of the referencing file, path); a result that is .. or starts with ../ leaves the root",
 			"file bodies are valid apart from the references: extends first, then imports, renders inside macros; two extends in a file or an extends after another statement cannot be made valid and are expected to fail",
 			"'read at most once' counts successful opens of existing files; repeated attempts to open a name that does not exist are not counted",
